@@ -206,8 +206,15 @@ def gen(rng, tier='quick', exact_only=False, label_kind=None, allow_affine=True,
         used_events.append(list(range(Sn)))
         nmom = int(rng.integers(0, 2))
     for _ in range(nmom):
-        if rng.random() < 0.5 or Sn == 1:
+        r_ev = rng.random()
+        if r_ev < 0.45 or Sn == 1:
             ev = list(range(Sn))
+        elif r_ev < 0.6 and Sn >= 3:
+            # both end scenarios and a proper subset of the ones in between
+            mid = [i for i in range(1, Sn - 1) if rng.random() < 0.4]
+            if len(mid) == Sn - 2:
+                mid = mid[1:]
+            ev = [0] + mid + [Sn - 1]
         else:
             ev = sorted(rng.choice(Sn, size=int(rng.integers(1, Sn + 1)), replace=False).tolist())
         if ev in used_events:
